@@ -508,6 +508,11 @@ impl<'a> Generator<'a> {
                 let mut vals: Vec<String> = ["alpha", "beta", "gamma", "delta", "omega"].iter().map(|s| s.to_string()).collect();
                 self.rng.shuffle(&mut vals);
                 vals.truncate(n);
+                // a list is a list, not a set: an entry may occur twice
+                if n > 0 && self.rng.chance(1, 3) {
+                    let again = vals[self.rng.usize_below(n)].clone();
+                    vals.push(again);
+                }
                 g.lists.insert(k.into(), vals);
             }
         }
